@@ -86,7 +86,7 @@ def scope(vc):
 
 
 def _key(c):
-    return (c[0], c[1], c[2].t.sexpr() if hasattr(c[2], "t") else str(c[2]))
+    return (str(c[0]), str(c[1]), c[2].t.sexpr() if hasattr(c[2], "t") else str(c[2]))
 
 
 CK = "resonaate.scenario.clock:"
